@@ -1310,7 +1310,12 @@ class ComputeGraph(MultiDiGraph):
         expr_args = []
         for arg in expr.args:
             expr_part, args, _, _ = self._expr_to_str(arg, **kwargs)
-            expr_str = expr_str.replace(str(arg), expr_part)
+            arg_str = str(arg)
+            if arg_str not in expr_str and arg_str.startswith('-') and expr_part.startswith('-'):
+                # inside a sum sympy prints a negative term as `... - 0.75*f(x)`, not as `... + -0.75*f(x)`
+                expr_str = expr_str.replace(f"- {arg_str[1:]}", f"- {expr_part[1:]}")
+            else:
+                expr_str = expr_str.replace(arg_str, expr_part)
             index_args.extend(args)
             expr_args.append(expr_part)
         var = str(expr_args[0]) if expr.args else ""
